@@ -560,3 +560,116 @@ pub fn seeded(seed: u64, n: usize) -> Vec<Val> {
         })
         .collect()
 }
+
+// ---------------------------------------------------------------------------------------------
+// trait-object payloads: values of *different concrete types and sizes* can be equal / ordered / hashed alike by
+// their own impls; a handle must answer exactly like the values do.
+
+pub trait DynVal: Send + Sync {
+    fn v(&self) -> u32;
+}
+impl PartialEq for dyn DynVal {
+    fn eq(&self, o: &dyn DynVal) -> bool {
+        self.v() == o.v()
+    }
+}
+impl Eq for dyn DynVal {}
+impl PartialOrd for dyn DynVal {
+    fn partial_cmp(&self, o: &dyn DynVal) -> Option<Ordering> {
+        Some(self.v().cmp(&o.v()))
+    }
+}
+impl Ord for dyn DynVal {
+    fn cmp(&self, o: &dyn DynVal) -> Ordering {
+        self.v().cmp(&o.v())
+    }
+}
+impl Hash for dyn DynVal {
+    fn hash<H: Hasher>(&self, h: &mut H) {
+        self.v().hash(h)
+    }
+}
+impl std::fmt::Debug for dyn DynVal {
+    fn fmt(&self, f: &mut std::fmt::Formatter) -> std::fmt::Result {
+        write!(f, "DynVal({})", self.v())
+    }
+}
+struct Small(u32);
+struct Wide(u32, [u64; 5]);
+struct Unit3;
+impl DynVal for Small {
+    fn v(&self) -> u32 {
+        self.0
+    }
+}
+impl DynVal for Wide {
+    fn v(&self) -> u32 {
+        self.0
+    }
+}
+impl DynVal for Unit3 {
+    fn v(&self) -> u32 {
+        3
+    }
+}
+
+pub fn class_dyn(st: &mut CmpStats) -> R {
+    fn mk(kind: usize, v: u32) -> Arc<dyn DynVal> {
+        match kind {
+            0 => unsafe { Arc::from_raw(Arc::into_raw(Arc::new(Small(v))) as *const dyn DynVal) },
+            1 => unsafe { Arc::from_raw(Arc::into_raw(Arc::new(Wide(v, [9; 5]))) as *const dyn DynVal) },
+            _ => unsafe { Arc::from_raw(Arc::into_raw(Arc::new(Unit3)) as *const dyn DynVal) },
+        }
+    }
+    for ka in 0..3 {
+        for kb in 0..3 {
+            for va in 2..=4u32 {
+                for vb in 2..=4u32 {
+                    let (a, b) = (mk(ka, va), mk(kb, vb));
+                    let what = format!("Arc<dyn Trait> over concrete kinds {}/{} holding {}/{}", ka, kb, a.v(), b.v());
+                    let (ra, rb): (&dyn DynVal, &dyn DynVal) = (&*a, &*b);
+                    ensure!(
+                        (a == b) == (ra == rb) && (a != b) == (ra != rb) && (a != b) != (a == b),
+                        "C14",
+                        "cmp",
+                        "{}: ==/!= through the handles is {}/{}, on the values {}/{}",
+                        what,
+                        a == b,
+                        a != b,
+                        ra == rb,
+                        ra != rb
+                    );
+                    ensure!(
+                        a.cmp(&b) == ra.cmp(rb)
+                            && a.partial_cmp(&b) == ra.partial_cmp(rb)
+                            && (a < b) == (ra < rb)
+                            && (a <= b) == (ra <= rb)
+                            && (a > b) == (ra > rb)
+                            && (a >= b) == (ra >= rb),
+                        "C14",
+                        "cmp",
+                        "{}: ordering through the handles differs from the values'",
+                        what
+                    );
+                    ensure!(
+                        hash_of(&a) == hash_of(ra) && format!("{:?}", a) == format!("{:?}", ra),
+                        "C14",
+                        "cmp",
+                        "{}: hash or Debug through the handle differs from the value's",
+                        what
+                    );
+                    ensure!(
+                        (a == b) == (a.cmp(&b) == Ordering::Equal) && (!(a == b) || hash_of(&a) == hash_of(&b)),
+                        "C14",
+                        "cmp",
+                        "{}: == disagrees with cmp, or equal handles hash differently",
+                        what
+                    );
+                    st.counts.bump("cmp.dyn.pairs");
+                }
+            }
+        }
+    }
+    Ok(())
+}
+
